@@ -343,14 +343,17 @@ def PlainAdmin (m : OutMsg) : Prop := isAdminKind m.kind = true ∧ (m.kind == "
 
 /-- sending one administrative reply in a live session: numbered with the next outbound number, persisted, written -/
 theorem sendInReplyTo_live (s : Sess) (m : OutMsg) (hs : Live s) (hm : PlainAdmin m) :
-    (sendInReplyTo s m).log = .wire { m with seq := s.store.sender } :: savedObs s s.store.sender { m with seq := s.store.sender } :: s.log
+    (sendInReplyTo s m).log = .wire { stamp s m with seq := s.store.sender } :: savedObs s s.store.sender { stamp s m with seq := s.store.sender } :: s.log
     ∧ (sendInReplyTo s m).store.target = s.store.target
     ∧ (sendInReplyTo s m).store.sender = s.store.sender + 1
     ∧ (sendInReplyTo s m).st = s.st ∧ (sendInReplyTo s m).cfg = s.cfg ∧ Live (sendInReplyTo s m) := by
   obtain ⟨h1, h2, h3⟩ := hs
   obtain ⟨k1, k2⟩ := hm
-  unfold sendInReplyTo prep
-  simp only [h1, k1, k2, Bool.not_true, Bool.false_eq_true, if_false, if_true, Bool.false_and]
+  have k1' : isAdminKind (stamp s m).kind = true := by rw [stamp_kind]; exact k1
+  have k2' : ((stamp s m).kind == "A") = false := by rw [stamp_kind]; exact k2
+  unfold sendInReplyTo prep prepCore
+  generalize stamp s m = sm at k1' k2' ⊢
+  simp only [h1, k1', k2', Bool.not_true, Bool.false_eq_true, if_false, if_true, Bool.false_and]
   unfold sendQueued Sess.persistOut savedObs
   cases hp : s.cfg.persist <;>
     simp [Sess.setToSend, Sess.emit, h2, h3, resendable]
